@@ -12,7 +12,10 @@
    delivered after Disconnect's Disconnected callback); it is kept in a separate configuration.  *)
 EXTENDS Integers, Sequences, FiniteSets, TLC
 
-CONSTANTS WithDisconnect, WithLocalClose, WithKeepAliveErr, WithCtxCancel
+CONSTANTS WithDisconnect, WithLocalClose, WithKeepAliveErr, WithCtxCancel,
+          WithKeepAlive,      \* the keep-alive goroutine of the reconnecting client (reconnclient.go:109-131) is modelled
+          BugKaNoCtxCheck,    \* finding F5: an error is stored although the keep-alive context was cancelled
+          BugKaNoDiscCheck    \* finding F17: ... although Disconnect had been called (ping interrupted by Disconnect)
 
 VARIABLES
   st,        \* connState: "New","Active","Closed","Disconnected"
@@ -32,15 +35,20 @@ VARIABLES
   peer,      \* what the peer has done: "idle","acked","closed"
   cb,        \* callback log: seq of [s, e]
   discCalled,\* Disconnect has been called (entered)
-  ended      \* the connection has ended (transport closed) - ground truth
+  ended,     \* the connection has ended (transport closed) - ground truth
+  kapc,      \* keep-alive goroutine: "off" | "idle" | "ping" | "stopped"
+  kacancel,  \* its context has been cancelled by the reconnect loop
+  rdisc      \* reconnectClient.disconnected is closed (Disconnect of the reconnecting client was called)
 
-vars == <<st, err, topen, done, connecting, cpc, cres, cl, spc, serr, sl, dpc, dl, ack, peer, cb, discCalled, ended>>
+vars == <<st, err, topen, done, connecting, cpc, cres, cl, spc, serr, sl, dpc, dl, ack, peer, cb, discCalled, ended, kapc, kacancel, rdisc>>
+kavars == <<kapc, kacancel, rdisc>>
 
 Init ==
   /\ st = "New" /\ err = "nil" /\ topen = TRUE /\ done = FALSE /\ connecting = FALSE
   /\ cpc = "start" /\ cres = "none" /\ cl = [last |-> "New", state |-> "New", err |-> "nil"]
   /\ spc = "off" /\ serr = "nil" /\ sl = cl /\ dpc = "idle" /\ dl = cl
   /\ ack = "none" /\ peer = "idle" /\ cb = << >> /\ discCalled = FALSE /\ ended = FALSE
+  /\ kapc = "off" /\ kacancel = FALSE /\ rdisc = FALSE
 
 \* ---- Connect ----
 CInit ==   \* init(); muConnecting.Lock(); go serve; write CONNECT
@@ -48,7 +56,7 @@ CInit ==   \* init(); muConnecting.Lock(); go serve; write CONNECT
   /\ connecting' = TRUE /\ spc' = "read"
   /\ IF topen THEN cpc' = "wait" /\ cres' = cres
      ELSE cpc' = "done" /\ cres' = "writeerr"
-  /\ UNCHANGED <<st, err, topen, done, cl, serr, sl, dpc, dl, ack, peer, cb, discCalled, ended>>
+  /\ UNCHANGED <<st, err, topen, done, cl, serr, sl, dpc, dl, ack, peer, cb, discCalled, ended>> /\ UNCHANGED kavars
 
 CWait ==   \* select over connClosed / ctx / connAck
   /\ cpc = "wait"
@@ -56,7 +64,7 @@ CWait ==   \* select over connClosed / ctx / connAck
      \/ /\ WithCtxCancel /\ cpc' = "done" /\ cres' = "ctx" /\ connecting' = FALSE /\ UNCHANGED ack
      \/ /\ ack = "ref" /\ ack' = "none" /\ cpc' = "done" /\ cres' = "refused" /\ connecting' = FALSE
      \/ /\ ack = "acc" /\ ack' = "none" /\ cpc' = "upd" /\ cres' = cres /\ connecting' = connecting
-  /\ UNCHANGED <<st, err, topen, done, cl, spc, serr, sl, dpc, dl, peer, cb, discCalled, ended>>
+  /\ UNCHANGED <<st, err, topen, done, cl, spc, serr, sl, dpc, dl, peer, cb, discCalled, ended>> /\ UNCHANGED kavars
 
 CUpdA ==   \* connStateUpdate(Active), part under mu
   /\ cpc = "upd"
@@ -64,58 +72,58 @@ CUpdA ==   \* connStateUpdate(Active), part under mu
      /\ cl' = [last |-> st, state |-> ns, err |-> err]
      /\ st' = ns
   /\ cpc' = "cb"
-  /\ UNCHANGED <<err, topen, done, connecting, cres, spc, serr, sl, dpc, dl, ack, peer, cb, discCalled, ended>>
+  /\ UNCHANGED <<err, topen, done, connecting, cres, spc, serr, sl, dpc, dl, ack, peer, cb, discCalled, ended>> /\ UNCHANGED kavars
 
 CUpdB ==   \* callback outside the lock, then return
   /\ cpc = "cb"
   /\ cb' = IF cl.last # cl.state THEN Append(cb, [s |-> cl.state, e |-> cl.err, by |-> "connect"]) ELSE cb
   /\ cpc' = "done" /\ cres' = "ok" /\ connecting' = FALSE
-  /\ UNCHANGED <<st, err, topen, done, cl, spc, serr, sl, dpc, dl, ack, peer, discCalled, ended>>
+  /\ UNCHANGED <<st, err, topen, done, cl, spc, serr, sl, dpc, dl, ack, peer, discCalled, ended>> /\ UNCHANGED kavars
 
 \* ---- peer ----
 PeerAck(a) ==
   /\ peer = "idle" /\ topen /\ cpc \in {"wait"} /\ spc = "read"
   /\ peer' = "acked" /\ ack' = a          \* serve reads CONNACK and puts it into chConnAck
-  /\ UNCHANGED <<st, err, topen, done, connecting, cpc, cres, cl, spc, serr, sl, dpc, dl, cb, discCalled, ended>>
+  /\ UNCHANGED <<st, err, topen, done, connecting, cpc, cres, cl, spc, serr, sl, dpc, dl, cb, discCalled, ended>> /\ UNCHANGED kavars
 
 PeerClose ==
   /\ topen /\ spc = "read"
   /\ topen' = FALSE /\ ended' = TRUE /\ peer' = "closed"
-  /\ UNCHANGED <<st, err, done, connecting, cpc, cres, cl, spc, serr, sl, dpc, dl, ack, cb, discCalled>>
+  /\ UNCHANGED <<st, err, done, connecting, cpc, cres, cl, spc, serr, sl, dpc, dl, ack, cb, discCalled>> /\ UNCHANGED kavars
 
 PeerMalformed ==
   /\ topen /\ spc = "read"
   /\ spc' = "close" /\ serr' = "invalid"
-  /\ UNCHANGED <<st, err, topen, done, connecting, cpc, cres, cl, sl, dpc, dl, ack, peer, cb, discCalled, ended>>
+  /\ UNCHANGED <<st, err, topen, done, connecting, cpc, cres, cl, sl, dpc, dl, ack, peer, cb, discCalled, ended>> /\ UNCHANGED kavars
 
 \* ---- local Close / keep-alive error ----
 LocalClose ==
   /\ WithLocalClose /\ topen /\ spc # "off"
   /\ topen' = FALSE /\ ended' = TRUE
-  /\ UNCHANGED <<st, err, done, connecting, cpc, cres, cl, spc, serr, sl, dpc, dl, ack, peer, cb, discCalled>>
+  /\ UNCHANGED <<st, err, done, connecting, cpc, cres, cl, spc, serr, sl, dpc, dl, ack, peer, cb, discCalled>> /\ UNCHANGED kavars
 
 KeepAliveErr ==  \* SetErrorOnce(ErrPingTimeout); Close()
   /\ WithKeepAliveErr /\ topen /\ cpc = "done" /\ cres = "ok"
   /\ err' = IF err = "nil" THEN "pingtimeout" ELSE err
   /\ topen' = FALSE /\ ended' = TRUE
-  /\ UNCHANGED <<st, done, connecting, cpc, cres, cl, spc, serr, sl, dpc, dl, ack, peer, cb, discCalled>>
+  /\ UNCHANGED <<st, done, connecting, cpc, cres, cl, spc, serr, sl, dpc, dl, ack, peer, cb, discCalled>> /\ UNCHANGED kavars
 
 \* ---- serve goroutine ----
 SReadEOF ==
   /\ spc = "read" /\ ~topen
   /\ spc' = "close" /\ serr' = "eof"
-  /\ UNCHANGED <<st, err, topen, done, connecting, cpc, cres, cl, sl, dpc, dl, ack, peer, cb, discCalled, ended>>
+  /\ UNCHANGED <<st, err, topen, done, connecting, cpc, cres, cl, sl, dpc, dl, ack, peer, cb, discCalled, ended>> /\ UNCHANGED kavars
 
 SClose ==  \* c.Close()
   /\ spc = "close"
   /\ topen' = FALSE /\ ended' = TRUE /\ spc' = "seterr"
-  /\ UNCHANGED <<st, err, done, connecting, cpc, cres, cl, serr, sl, dpc, dl, ack, peer, cb, discCalled>>
+  /\ UNCHANGED <<st, err, done, connecting, cpc, cres, cl, serr, sl, dpc, dl, ack, peer, cb, discCalled>> /\ UNCHANGED kavars
 
 SSetErr == \* under mu: if state != Disconnected, SetErrorOnce
   /\ spc = "seterr"
   /\ err' = IF st # "Disconnected" /\ err = "nil" THEN serr ELSE err
   /\ spc' = "upd"
-  /\ UNCHANGED <<st, topen, done, connecting, cpc, cres, cl, serr, sl, dpc, dl, ack, peer, cb, discCalled, ended>>
+  /\ UNCHANGED <<st, topen, done, connecting, cpc, cres, cl, serr, sl, dpc, dl, ack, peer, cb, discCalled, ended>> /\ UNCHANGED kavars
 
 SUpdA ==
   /\ spc = "upd"
@@ -123,39 +131,73 @@ SUpdA ==
      /\ sl' = [last |-> st, state |-> ns, err |-> err]
      /\ st' = ns
   /\ spc' = "cb"
-  /\ UNCHANGED <<err, topen, done, connecting, cpc, cres, cl, serr, dpc, dl, ack, peer, cb, discCalled, ended>>
+  /\ UNCHANGED <<err, topen, done, connecting, cpc, cres, cl, serr, dpc, dl, ack, peer, cb, discCalled, ended>> /\ UNCHANGED kavars
 
 SUpdB ==
   /\ spc = "cb"
   /\ cb' = IF sl.last # sl.state THEN Append(cb, [s |-> sl.state, e |-> sl.err, by |-> "serve"]) ELSE cb
   /\ spc' = "fin"
-  /\ UNCHANGED <<st, err, topen, done, connecting, cpc, cres, cl, serr, sl, dpc, dl, ack, peer, discCalled, ended>>
+  /\ UNCHANGED <<st, err, topen, done, connecting, cpc, cres, cl, serr, sl, dpc, dl, ack, peer, discCalled, ended>> /\ UNCHANGED kavars
 
 SFin ==
   /\ spc = "fin"
   /\ done' = TRUE /\ spc' = "exit"
-  /\ UNCHANGED <<st, err, topen, connecting, cpc, cres, cl, serr, sl, dpc, dl, ack, peer, cb, discCalled, ended>>
+  /\ UNCHANGED <<st, err, topen, connecting, cpc, cres, cl, serr, sl, dpc, dl, ack, peer, cb, discCalled, ended>> /\ UNCHANGED kavars
 
 \* ---- Disconnect ----
 DStart ==  \* muConnecting.RLock (blocked while Connect runs); connStateUpdate(Disconnected) part A
   /\ WithDisconnect /\ dpc = "idle" /\ ~connecting /\ cpc = "done" /\ cres = "ok"
+  /\ (WithKeepAlive => rdisc)
   /\ discCalled' = TRUE
   /\ dl' = [last |-> st, state |-> "Disconnected", err |-> err]
   /\ st' = "Disconnected"
   /\ dpc' = "cb"
-  /\ UNCHANGED <<err, topen, done, connecting, cpc, cres, cl, spc, serr, sl, ack, peer, cb, ended>>
+  /\ UNCHANGED <<err, topen, done, connecting, cpc, cres, cl, spc, serr, sl, ack, peer, cb, ended>> /\ UNCHANGED kavars
 
 DCb ==
   /\ dpc = "cb"
   /\ cb' = IF dl.last # dl.state THEN Append(cb, [s |-> dl.state, e |-> dl.err, by |-> "disconnect"]) ELSE cb
   /\ dpc' = "write"
-  /\ UNCHANGED <<st, err, topen, done, connecting, cpc, cres, cl, spc, serr, sl, dl, ack, peer, discCalled, ended>>
+  /\ UNCHANGED <<st, err, topen, done, connecting, cpc, cres, cl, spc, serr, sl, dl, ack, peer, discCalled, ended>> /\ UNCHANGED kavars
 
 DWrite ==  \* write DISCONNECT; on success Transport.Close()
   /\ dpc = "write"
   /\ IF topen THEN topen' = FALSE /\ ended' = TRUE /\ dpc' = "ok"
      ELSE dpc' = "err" /\ UNCHANGED <<topen, ended>>
-  /\ UNCHANGED <<st, err, done, connecting, cpc, cres, cl, spc, serr, sl, dl, ack, peer, cb, discCalled>>
+  /\ UNCHANGED <<st, err, done, connecting, cpc, cres, cl, spc, serr, sl, dl, ack, peer, cb, discCalled>> /\ UNCHANGED kavars
+
+
+\* ---- keep-alive goroutine of the reconnecting client, and the loop's part in it ----
+RDisconnect ==   \* reconnectClient.Disconnect: close(c.disconnected) first, then the DISCONNECT task
+  /\ WithKeepAlive /\ WithDisconnect /\ ~rdisc /\ cpc = "done" /\ cres = "ok"
+  /\ rdisc' = TRUE
+  /\ UNCHANGED <<st, err, topen, done, connecting, cpc, cres, cl, spc, serr, sl, dpc, dl, ack, peer, cb, discCalled, ended, kapc, kacancel>>
+KAStart ==
+  /\ WithKeepAlive /\ kapc = "off" /\ cpc = "done" /\ cres = "ok"
+  /\ kapc' = "idle"
+  /\ UNCHANGED <<st, err, topen, done, connecting, cpc, cres, cl, spc, serr, sl, dpc, dl, ack, peer, cb, discCalled, ended, kacancel, rdisc>>
+KATick == /\ kapc = "idle" /\ kapc' = "ping"
+          /\ UNCHANGED <<st, err, topen, done, connecting, cpc, cres, cl, spc, serr, sl, dpc, dl, ack, peer, cb, discCalled, ended, kacancel, rdisc>>
+KAPingOk == /\ kapc = "ping" /\ topen /\ kapc' = "idle"
+            /\ UNCHANGED <<st, err, topen, done, connecting, cpc, cres, cl, spc, serr, sl, dpc, dl, ack, peer, cb, discCalled, ended, kacancel, rdisc>>
+\* the select after KeepAlive returned an error (reconnclient.go): stand down if the context was cancelled or
+\* Disconnect was called, else store the error on this connection and close it
+StandDown == (kacancel /\ ~BugKaNoCtxCheck) \/ (rdisc /\ ~BugKaNoDiscCheck)
+KAPingTimeout ==     \* the peer is silent: ErrPingTimeout
+  /\ kapc = "ping" /\ topen /\ kapc' = "stopped"
+  /\ IF StandDown THEN UNCHANGED <<err, topen, ended>>
+     ELSE /\ err' = IF err = "nil" THEN "pingtimeout" ELSE err
+          /\ topen' = FALSE /\ ended' = TRUE
+  /\ UNCHANGED <<st, done, connecting, cpc, cres, cl, spc, serr, sl, dpc, dl, ack, peer, cb, discCalled, kacancel, rdisc>>
+KAPingFails ==       \* the transport was closed under the ping (by anyone): Ping returns an error
+  /\ kapc = "ping" /\ ~topen /\ kapc' = "stopped"
+  /\ err' = IF StandDown \/ err # "nil" THEN err ELSE "pingfailed"
+  /\ UNCHANGED <<st, topen, done, connecting, cpc, cres, cl, spc, serr, sl, dpc, dl, ack, peer, cb, discCalled, ended, kacancel, rdisc>>
+\* the reconnect loop: Done() closed or disconnected closed -> cancelKeepAlive()
+LoopCancelsKA ==
+  /\ WithKeepAlive /\ ~kacancel /\ (done \/ rdisc)
+  /\ kacancel' = TRUE
+  /\ UNCHANGED <<st, err, topen, done, connecting, cpc, cres, cl, spc, serr, sl, dpc, dl, ack, peer, cb, discCalled, ended, kapc, rdisc>>
 
 Next ==
   \/ CInit \/ CWait \/ CUpdA \/ CUpdB
@@ -163,6 +205,7 @@ Next ==
   \/ LocalClose \/ KeepAliveErr
   \/ SReadEOF \/ SClose \/ SSetErr \/ SUpdA \/ SUpdB \/ SFin
   \/ DStart \/ DCb \/ DWrite
+  \/ RDisconnect \/ KAStart \/ KATick \/ KAPingOk \/ KAPingTimeout \/ KAPingFails \/ LoopCancelsKA
 
 Spec == Init /\ [][Next]_vars /\ WF_vars(Next)
 
@@ -175,11 +218,11 @@ ClosedHasError == \A i \in Idx("Closed") : cb[i].e # "nil"
 DisconnectedAtMostOnce == Cardinality(Idx("Disconnected")) <= 1
 NoClosedAfterDisconnected == \A i \in Idx("Disconnected") : \A j \in Idx("Closed") : j < i
 \* at rest (everything finished)
-AtRest == spc = "exit" /\ cpc = "done" /\ dpc \in {"idle", "ok", "err"}
+AtRest == spc = "exit" /\ cpc = "done" /\ dpc \in {"idle", "ok", "err"} /\ kapc \in {"off", "stopped"}
 ClosedExactlyOnceIfNoDisconnect == (AtRest /\ ~discCalled) => Cardinality(Idx("Closed")) = 1
 DisconnectedExactlyOnce == (AtRest /\ discCalled) => Cardinality(Idx("Disconnected")) = 1
 ClosedErrIsErr == \A i \in Idx("Closed") : AtRest => cb[i].e = err
-ErrNilWhileHealthy == (topen /\ spc = "read" /\ cpc = "done" /\ cres = "ok" /\ ~discCalled) => err = "nil"
+ErrNilWhileHealthy == (topen /\ spc = "read" /\ cpc = "done" /\ cres = "ok" /\ ~discCalled /\ kapc # "stopped") => err = "nil"
 \* graceful: Disconnect wrote DISCONNECT on an open transport and nothing else ended the connection first
 ErrNilAfterGraceful == (AtRest /\ dpc = "ok" /\ peer # "closed" /\ serr # "invalid") => err = "nil"
 DoneIffEnded == (done => ended) /\ (AtRest => done)
